@@ -107,13 +107,27 @@ Proof.
   - destruct tk; [apply IH|apply quiet_SI].
 Qed.
 
+Lemma end_task_SI i how s tk : SI i s (end_task i how s tk).
+Proof. unfold end_task. eapply SI_trans; [apply SI_on_w|apply SI_say; exact I]. reflexivity. Qed.
+
+Lemma fold_end_task_SI i : forall l s, SI i s (fold_left (end_task i 0) l s).
+Proof. induction l as [|t l IH]; intros s; cbn [fold_left]; [apply SI_refl|]. eapply SI_trans; [apply end_task_SI|apply IH]. Qed.
+
+Lemma SI_say_all i l s : Forall (neutral i) l -> SI i s (say_all l s).
+Proof.
+  intros H. exists l. split; [reflexivity|]. destruct (neutral_ok i l (catchf (w_mod (x_w s) i)) H) as [A B]. cbn [say_all x_w]. auto.
+Qed.
+
+Lemma spawn_items_neutral i j n ps : Forall (neutral i) (spawn_items j n ps).
+Proof. unfold spawn_items. apply Forall_forall. intros it H. apply in_map_iff in H. destruct H as (ip & <- & _). exact I. Qed.
+
 Lemma poll1_SI k now i s tk : SI i s (poll1 k now i s tk).
 Proof.
   unfold poll1.
   match goal with |- context [run_prog true k now i ?who ?p ?s0] =>
     pose proof (run_prog_SI true k now i who p s0) as H; destruct (run_prog true k now i who p s0) as [s1 r] end.
   cbn [fst] in H. assert (H0 : SI i s s1) by (eapply SI_trans; [|exact H]; apply SI_say; exact I).
-  destruct r; try exact H0; (eapply SI_trans; [exact H0|apply SI_on_w; cf]).
+  destruct r; try exact H0; (eapply SI_trans; [exact H0|]); try apply end_task_SI; apply SI_on_w; cf.
 Qed.
 
 Lemma fold_poll1_SI k now i : forall l s, SI i s (fold_left (poll1 k now i) l s).
@@ -126,10 +140,11 @@ Lemma exec_SI k now i c sp p s : SI i s (fst (exec k now i c sp p s)).
 Proof.
   unfold exec.
   match goal with |- context [run_prog false k now i 0 p ?s0] =>
-    assert (H0 : SI i s s0) by (eapply SI_trans; [|apply SI_on_w; unfold spawn_all; cf]; apply SI_say; exact I);
+    assert (H0 : SI i s s0) by (eapply SI_trans; [|apply SI_say_all, spawn_items_neutral]; eapply SI_trans; [|apply SI_on_w; unfold spawn_all; cf]; apply SI_say; exact I);
     pose proof (run_prog_SI false k now i 0 p s0) as H; destruct (run_prog false k now i 0 p s0) as [s2 r] end.
   cbn [fst] in H. assert (H1 : SI i s s2) by (eapply SI_trans; eauto).
-  destruct r; cbn [fst]; try exact H1; eapply SI_trans; try exact H1; try apply poll_ready_SI. apply SI_on_w. cf.
+  destruct r; cbn [fst]; try exact H1; eapply SI_trans; try exact H1; try apply poll_ready_SI.
+  eapply SI_trans; [apply SI_on_w|apply fold_end_task_SI]. cf.
 Qed.
 
 Lemma catch_cf c i p w : catchf (w_mod (fst (catch c i p w)) i) = catchf (w_mod w i).
@@ -191,7 +206,7 @@ Qed.
 Lemma buf_process_cf c now m w j : catchf (w_mod (fst (buf_process c now m w)) j) = catchf (w_mod w j).
 Proof.
   unfold buf_process, shutdown_part. cbn [w_mod set_buf set_fes].
-  destruct (shut (w_mod w m)) as [[t|]|]; cbn [fst w_mod set_fes set_mod]; try reflexivity;
+  destruct (shut (w_mod w m)) as [[t|]|]; cbn [fst w_mod set_fes set_fin set_mod]; try reflexivity;
     (destruct (j =? m) eqn:E; [|reflexivity]); apply N.eqb_eq in E; subst j; reflexivity.
 Qed.
 
